@@ -267,17 +267,19 @@ StaticStep ==
     /\ InTop("S")
     /\ IF Ok
        THEN LET f == Top
-            IN  IF f.q
-                THEN /\ NotDrawn(f)
-                     /\ Set([f EXCEPT !.last = "S", !.lv = <<E.v[1], 0, 0>>, !.se = E.v[1], !.best = E.v[1],
-                                      !.a = IF E.v[1] < f.b /\ E.v[1] > f.a THEN E.v[1] ELSE f.a])
-                ELSE LET chk == InCheck(f.pos)
-                     IN  /\ NotDrawn(f)
-                         /\ Viol((E.v[3] = 1) = chk, "C01", "check-verdict-at-a-search-node",
-                                 [fen |-> FenOf(f.pos), engine |-> E.v[3] = 1, rule_book |-> chk, root |-> FenOf(rootpos)])
-                         /\ Drift(E.v[2] = f.d + (IF chk /\ f.d < 255 THEN 1 ELSE 0), "check-extension", [d |-> f.d, deff |-> E.v[2]])
-                         /\ Drift(E.v[2] > 0, "search-continues-at-depth-0", [ply |-> f.ply])
-                         /\ Set([f EXCEPT !.last = "S", !.se = E.v[1], !.deff = E.v[2], !.chk = (E.v[3] = 1)])
+            IN  /\ Viol(E.v[1] > -31900 /\ E.v[1] < 31900, "C16", "static-evaluation-in-the-mate-range",
+                        [fen |-> FenOf(f.pos), eval |-> E.v[1], root |-> FenOf(rootpos)])
+                /\ IF f.q
+                   THEN /\ NotDrawn(f)
+                        /\ Set([f EXCEPT !.last = "S", !.lv = <<E.v[1], 0, 0>>, !.se = E.v[1], !.best = E.v[1],
+                                         !.a = IF E.v[1] < f.b /\ E.v[1] > f.a THEN E.v[1] ELSE f.a])
+                   ELSE LET chk == InCheck(f.pos)
+                        IN  /\ NotDrawn(f)
+                            /\ Viol((E.v[3] = 1) = chk, "C01", "check-verdict-at-a-search-node",
+                                    [fen |-> FenOf(f.pos), engine |-> E.v[3] = 1, rule_book |-> chk, root |-> FenOf(rootpos)])
+                            /\ Drift(E.v[2] = f.d + (IF chk /\ f.d < 255 THEN 1 ELSE 0), "check-extension", [d |-> f.d, deff |-> E.v[2]])
+                            /\ Drift(E.v[2] > 0, "search-continues-at-depth-0", [ply |-> f.ply])
+                            /\ Set([f EXCEPT !.last = "S", !.se = E.v[1], !.deff = E.v[2], !.chk = (E.v[3] = 1)])
        ELSE UNCHANGED st
     /\ Keep /\ Bump("S")
 
@@ -311,6 +313,8 @@ ResultOf(k) ==
                 f == s[Len(s)]
                 v == E.v[1]
             IN  /\ CloseClauses(c)
+                /\ Viol(v >= -MateV /\ v <= MateV, "C04", "score-outside-the-mate-range",
+                        [ply |-> E.p, score |-> v, root |-> FenOf(rootpos)])
                 /\ ValueOf(c) # None => Drift(v = Neg(ValueOf(c)), "result-is-not-minus-the-value-returned",
                                               [ply |-> E.p, result |-> v, returned |-> ValueOf(c), how |-> c.last])
                 /\ Drift((k = "R0") = (f.cur = -2), "result-of-another-kind-of-move", [ply |-> E.p])
